@@ -243,7 +243,13 @@ func waitCaughtUp(c cache.Cache, s *Store, pool string) (bool, string) {
 			h := have[p.Namespace+"/"+p.Name]
 			if h == nil || !metaEq(&h.ObjectMeta, &p.ObjectMeta) || h.Spec.NodeName != p.Spec.NodeName || h.Status.Phase != p.Status.Phase ||
 				!equality.Semantic.DeepEqual(h.Status.Conditions, p.Status.Conditions) {
-				return "pod " + p.Name
+				d := "missing in lister"
+				if h != nil {
+					d = fmt.Sprintf("lister: labels=%v ann=%v node=%q phase=%s del=%v cond=%v | store: labels=%v ann=%v node=%q phase=%s del=%v cond=%v",
+						h.Labels, h.Annotations, h.Spec.NodeName, h.Status.Phase, h.DeletionTimestamp != nil, h.Status.Conditions,
+						p.Labels, p.Annotations, p.Spec.NodeName, p.Status.Phase, p.DeletionTimestamp != nil, p.Status.Conditions)
+				}
+				return "pod " + p.Name + " " + d
 			}
 		}
 		// nodes
